@@ -102,6 +102,50 @@ CHECKS = {
             "write/read + fixup.",
             "librt primitives only through the Python-level write/read paths (no rebuild of librt); generated programs not "
             "enumerated", "4/C11"),
+    "C01": ("exploration",
+            "exhaustive enumeration of a typed program grammar, each accepted program executed on all inputs",
+            "Six generated families (narrowing: 22 declared types x 52 guards x 12 control shapes x uses; operators over all "
+            "ordered type pairs; calls/generics/overloads; joins; classes/dataclasses/enums/protocols; control flow) = 90k "
+            "(Q) / 306k (T) functions type-checked by the real build (bundled typeshed); every ACCEPTED function is run "
+            "by CPython on every argument tuple of its value domains with recording probes: no TypeError/AttributeError "
+            "from generated code, every observed value is a member of the static type of its probe, no probe executes in "
+            "code mypy treated as unreachable. Rejected functions are the single-edit ill-typed perturbations.",
+            "small-scope fragment of 'all programs'; membership relation only flags what it can decide (undecided counted); "
+            "functions in which typeshed leaks Any are executed but not judged", "4/C01"),
+    "C05": ("exploration",
+            "exhaustive differential enumeration: compiled extension vs the same source interpreted",
+            "Families generated from the primitive registry (all 351 entries introspected), all call shapes <=3 actuals "
+            "against all signatures <=3 parameters x 5 callee kinds, try/finally clause-action products, generator "
+            "step scripts, closures, (T) loops over every iterable kind, native class hierarchies/layouts, in opt 0/3 and "
+            "single/multi_file/separate layouts; every case is evaluated in the mypyc-compiled module (built from the "
+            "working tree incl. lib-rt) and in CPython: same value+type, same exception type (message only for "
+            "program-raised exceptions), same stdout, same mutation of passed-in objects; a signal is a violation.",
+            "documented differences only (differences_from_python.rst); ill-typed calls are not generated", "4/C05"),
+    "C06": ("model_checking",
+            "explicit-state search of every function's CFG over abstract ownership states + dynamic conformance",
+            "Every function of the mypyc corpus (Q: refcount/irbuild-basic/classes/try + 200 cases; T: all 1439) and of a "
+            "generated family is compiled by the real pipeline and checked twice (after refcount insertion and on the final "
+            "IR) by a path-based abstract interpretation whose transfer functions come only from the op objects "
+            "(is_borrowed, stolen(), sources(), error kinds, Inc/DecRef): over-release, leak on any return/error path, use "
+            "after release, undefined read, NULL use. Conformance: compiled generated functions are executed on tracked "
+            "objects (refcount deltas, weakref census, PYTHONMALLOC=debug, signals) and all 32 assignment-subset "
+            "undefined-read programs are compared with CPython.",
+            "lib-rt's declared steal/borrow contracts are trusted statically (checked only dynamically)", "4/C06"),
+    "C12": ("exploration",
+            "exhaustive enumeration of call shapes, class hierarchies, version/platform conditions and constant expressions vs CPython",
+            "Calls: every signature <=3 (T 4) parameters over 8 kinds x every call shape <=3 actuals (positional, keyword, "
+            "*tuple, **TypedDict): mypy's arity/keyword verdict vs really calling the function, both directions. MRO: all "
+            "hierarchies <=5 classes (T: 6 with <=2 bases) vs type(...).__mro__. Reachability: every sys.version_info / "
+            "sys.platform comparison form x targets 3.0-3.15 x platforms, both parsers, vs eval with a fake sys. Folding: all "
+            "expressions to depth 2 over boundary leaves for mypy's and mypyc's folders vs eval.",
+            "depth-3 folding only as a restricted slice; mypyc folder called directly (not through a compiled extension)", "4/C12"),
+    "C18": ("exploration",
+            "exhaustive enumeration of all small directory trees x option grid x invocation forms",
+            "Every directory tree over names {a,b} up to 3 files / depth 2 (T: 4 files, depth 3 for <=2 files) with "
+            ".py/.pyi/__init__ variants x {namespace packages off/on, explicit package bases} x MYPYPATH x cwd; for each: "
+            "`mypy DIR`, files in every order, `-p PKG`, `-m MOD` through the real process_options + build: same "
+            "diagnostics (unless the duplicate-module blocker), and graph[module_of(F)].path is F or its sibling stub.",
+            "fixture stubs (real typeshed only in the replay's CLI leg); 4-file layers screened by source-list comparison", "4/C18"),
 }
 
 NOT_BUILT = {}
